@@ -217,28 +217,41 @@ Definition is_some {A} (o : option A) : bool := match o with Some _ => true | No
 Definition iv_required (d : inputvaldef) : bool :=
   ty_is_nonnull (iv_type d) && (match iv_default d with None => true | Some _ => false end).
 
-(** value.fields.iter().find(|(key,_)| ef.name == key.name).map(|(_, v)| cv(v, ef.type)) *)
-Definition look_field (cv : value -> ty -> list cerr) (ef : inputvaldef) :=
-  fix ff (l : list (ident * value)) : option (list cerr) :=
+(** expected_type_of_location (aff743c): a value that is directly a variable is checked against the inner type when
+    the location is non-null and has a default value (with variables = None the variable is unknown either way) *)
+Definition expected_ty (d : inputvaldef) (v : value) : ty :=
+  match iv_type d, v with
+  | TNonNull inner, VVar _ _ => match iv_default d with Some _ => inner | None => iv_type d end
+  | t, _ => t
+  end.
+
+(** 7d19234: every value given under the name of [ef] is checked:
+      for (_, value) in fields.iter().filter(|(key, _)| ef.name == key.name) { check_value(value, expected_type_of_location(ef, value)) } *)
+Definition occ_errs (cv : value -> ty -> list cerr) (ef : inputvaldef) :=
+  fix ff (l : list (ident * value)) : list cerr :=
     match l with
-    | [] => None
-    | (k, fv) :: r => if str_eqb (iname (iv_name ef)) (iname k) then Some (cv fv (iv_type ef)) else ff r
+    | [] => []
+    | (k, fv) :: r => (if str_eqb (iname (iv_name ef)) (iname k) then cv fv (expected_ty ef fv) else []) ++ ff r
     end.
+(** how many entries of [l] are named [name] *)
+Definition occ_count (name : str) (l : list (ident * value)) : nat :=
+  length (filter (fun kv : ident * value => str_eqb name (iname (fst kv))) l).
+Definition list_sum (l : list nat) : nat := fold_right plus 0 l.
 
 (** is_value_compatible_type_def, InputObject case with an ObjectValue: (diagnostics pushed, compatible?, additional_info) *)
 Definition input_object_check (cv : value -> ty -> list cerr) (fields : list inputvaldef) (fs : list (ident * value))
   : list cerr * bool * list (pos * emsg) :=
-  let look := fun ef => look_field cv ef fs in
-  (* diagnostics pushed by the nested check_value calls, in field-definition order *)
-  let errs := flat_map (fun ef => match look ef with Some es => es | None => [] end) fields in
+  let present := fun ef : inputvaldef => Nat.ltb 0 (occ_count (iname (iv_name ef)) fs) in
+  (* diagnostics pushed by the nested check_value calls: field definitions in order, their occurrences in order *)
+  let errs := flat_map (fun ef => occ_errs cv ef fs) fields in
   (* res stays true iff no required field is missing *)
-  let res := forallb (fun ef => match look ef with Some _ => true | None => negb (iv_required ef) end) fields in
-  let info_req := flat_map (fun ef => match look ef with
-                                    | Some _ => []
-                                    | None => if iv_required ef
-                                              then [(ipos (iv_name ef), RequiredFieldNotSpecified (iname (iv_name ef)))]
-                                              else [] end) fields in
-  let seen := length (filter (fun ef => is_some (look ef)) fields) in
+  let res := forallb (fun ef => present ef || negb (iv_required ef)) fields in
+  let info_req := flat_map (fun ef => if present ef then []
+                                    else if iv_required ef
+                                         then [(ipos (iv_name ef), RequiredFieldNotSpecified (iname (iv_name ef)))]
+                                         else []) fields in
+  (* seen_fields is incremented once per occurrence *)
+  let seen := list_sum (map (fun ef => occ_count (iname (iv_name ef)) fs) fields) in
   let extraneous := Nat.ltb seen (length fs) in
   let info :=
     if extraneous
@@ -249,6 +262,19 @@ Definition input_object_check (cv : value -> ty -> list cerr) (fields : list inp
     else info_req in
   (errs, res && negb extraneous, info).
 
+(** check_variables_in_value (49e8e28) with variables = None: every variable nested in the literal is undefined *)
+Fixpoint vars_in_value (v : value) : list cerr :=
+  match v with
+  | VVar name p => [err (UnknownVariable name) p]
+  | VList _ vs => flat_map vars_in_value vs
+  | VObject _ fs =>
+      (fix ff (l : list (ident * value)) : list cerr :=
+         match l with [] => [] | (_, fv) :: r => vars_in_value fv ++ ff r end) fs
+  | _ => []
+  end.
+Definition is_builtin_scalar_name (name : str) : bool :=
+  str_eqb name (s "Boolean") || str_eqb name (s "Int") || str_eqb name (s "Float") || str_eqb name (s "String") || str_eqb name (s "ID").
+
 (** check_value, expected type Named(n): the `definitions.get_type` lookup and is_value_compatible_type_def;
     [cv] is check_value itself (for the fields of an input-object literal), [t] = TNamed n (for the message) *)
 Definition check_named (cv : value -> ty -> list cerr) (doc : tsdoc) (v : value) (t : ty) (n : ident) : list cerr :=
@@ -257,7 +283,10 @@ Definition check_named (cv : value -> ty -> list cerr) (doc : tsdoc) (v : value)
   | Some td =>
       let mismatch info := [mkErr (TypeMismatch (ty_to_string t)) (value_pos v) info] in
       match td with
-      | TDScalar _ _ nm _ _ => if builtin_scalar_ok (iname nm) v then [] else mismatch []
+      | TDScalar _ _ nm _ _ =>
+          (* a custom scalar accepts any literal, but variables inside it have to be defined *)
+          (if is_builtin_scalar_name (iname nm) then [] else vars_in_value v) ++
+          (if builtin_scalar_ok (iname nm) v then [] else mismatch [])
       | TDObject _ _ _ _ _ _ _ | TDInterface _ _ _ _ _ _ _ | TDUnion _ _ _ _ _ _ => mismatch []
       | TDEnum _ _ nm _ vals _ =>
           match v with
@@ -307,7 +336,8 @@ Fixpoint find_arg (key : str) (al : list (ident * value)) : option value :=
   | (k, v) :: r => if str_eqb key (iname k) then Some v else find_arg key r
   end.
 
-(** diagnostics of one iteration of the loop over the argument definitions *)
+(** diagnostics of one iteration of the loop over the argument definitions: a missing required argument, or the
+    check of every value given under that name *)
 Definition arg_errs (doc : tsdoc) (al : list (ident * value)) (argument_pos : pos) (d : inputvaldef) : list cerr :=
   match find_arg (iname (iv_name d)) al with
   | None =>
@@ -315,7 +345,7 @@ Definition arg_errs (doc : tsdoc) (al : list (ident * value)) (argument_pos : po
       then [mkErr (RequiredArgumentNotSpecified (iname (iv_name d))) argument_pos
                   [(ipos (iv_name d), DefinitionPos (iname (iv_name d)))]]
       else []
-  | Some v => check_value doc v (iv_type d)
+  | Some _ => occ_errs (check_value doc) d al
   end.
 
 Definition check_arguments (doc : tsdoc) (parent_pos : pos) (parent_name kind : str)
@@ -326,8 +356,8 @@ Definition check_arguments (doc : tsdoc) (parent_pos : pos) (parent_name kind : 
   | _, _ =>
       let argument_pos := match args with None => parent_pos | Some a => args_pos a end in
       let al := match args with None => [] | Some a => args_list a end in
-      (* seen_args = number of argument definitions for which an argument was found *)
-      let seen := length (filter (fun d => is_some (find_arg (iname (iv_name d)) al)) defs) in
+      (* seen_args is incremented once per occurrence of an argument whose name is declared *)
+      let seen := list_sum (map (fun d => occ_count (iname (iv_name d)) al) defs) in
       flat_map (arg_errs doc al argument_pos) defs ++
       (if Nat.ltb seen (length al)
        then flat_map (fun kv : ident * value =>
@@ -532,7 +562,8 @@ Definition check_typedef (doc : tsdoc) (t : typedef) : list cerr :=
   end.
 
 (** * check_directive_recursion.rs (as fixed in efed6d0) *)
-Definition directives_in_type (t : typedef) : list directive :=
+(** the directives written on the definition of a type itself: on the type, its fields, its values *)
+Definition shallow_dirs (t : typedef) : list directive :=
   match t with
   | TDScalar _ _ _ dirs _ => dirs
   | TDObject _ _ _ _ dirs fields _ | TDInterface _ _ _ _ dirs fields _ => dirs ++ flat_map fd_dirs fields
@@ -541,14 +572,44 @@ Definition directives_in_type (t : typedef) : list directive :=
   | TDInput _ _ _ dirs fields _ => dirs ++ flat_map iv_dirs fields
   end.
 
+(** directives_in_type (2bc0346): for an input object also, transitively, the directives of the types of its fields;
+    [seen] = the `seen_types` set of type names (threaded through the whole traversal), result = (directives in the
+    order they are collected, seen set afterwards, fuel sufficed).  Every call that goes on adds a new type name to
+    [seen], so the nesting depth is bounded by the number of type definitions (Proofs13: dit_fuel_enough). *)
+Fixpoint dit (fuel : nat) (doc : tsdoc) (def : typedef) (seen : list str) : list directive * list str * bool :=
+  match fuel with
+  | O => ([], seen, false)
+  | S f =>
+      if mem (tname def) seen then ([], seen, true) else
+      let seen1 := tname def :: seen in
+      match def with
+      | TDInput _ _ _ _ fields _ =>
+          fold_left (fun (acc : list directive * list str * bool) (fd : inputvaldef) =>
+                       match last_type doc (iname (ty_unwrapped (iv_type fd))) with
+                       | Some ft =>
+                           let r := dit f doc ft (snd (fst acc)) in
+                           (fst (fst acc) ++ fst (fst r), snd (fst r), snd acc && snd r)
+                       | None => acc
+                       end) fields (shallow_dirs def, seen1, true)
+      | _ => (shallow_dirs def, seen1, true)
+      end
+  end.
+Definition dit_fuel (doc : tsdoc) : nat := S (length doc).
+Definition directives_in_type (doc : tsdoc) (def : typedef) : list directive := fst (fst (dit (dit_fuel doc) doc def [])).
+
 (** the directive definitions referenced from the arguments of [d] (the `next_directives.extend(...)` expression) *)
 Definition next_of (doc : tsdoc) (d : directivedef) : list directivedef :=
   flat_map (fun iv : inputvaldef =>
     let tdirs := match last_type doc (iname (ty_unwrapped (iv_type iv))) with
-                 | Some td => directives_in_type td | None => [] end in
+                 | Some td => directives_in_type doc td | None => [] end in
     flat_map (fun dir : directive =>
       match last_directive doc (iname (dir_name dir)) with Some dd => [dd] | None => [] end)
       (iv_dirs iv ++ tdirs)) (opt_list (dd_args d)).
+(** did every type traversal started from the arguments of [d] stay within its fuel *)
+Definition next_of_fuel_ok (doc : tsdoc) (d : directivedef) : bool :=
+  forallb (fun iv : inputvaldef =>
+    match last_type doc (iname (ty_unwrapped (iv_type iv))) with
+    | Some td => snd (dit (dit_fuel doc) doc td []) | None => true end) (opt_list (dd_args d)).
 
 Record rstate := mkR { r_start : bool; r_reported : bool; r_seen : list str; r_next : list directivedef; r_errs : list cerr }.
 
@@ -577,6 +638,8 @@ Definition check_directive_recursion (doc : tsdoc) (d : directivedef) : list cer
   rec_loop (S (length doc)) doc (dname d) [d] true false [].
 
 Definition check_directive_def (doc : tsdoc) (d : directivedef) : list cerr :=
+  (* model only: never produced (Proofs13) *)
+  (if next_of_fuel_ok doc d then [] else [err EOutOfFuel pos0]) ++
   check_directive_recursion doc d ++ unsco (dd_name d) ++
   (match dd_args d with Some a => check_args_def doc a | None => [] end).
 
